@@ -188,3 +188,50 @@ func NaiveLCPTable(t []byte, sa []int32) []int32 {
 	}
 	return lcp
 }
+
+// TwoNeighbourLiterals is the reference for the documented method of the
+// greedy suffix array parser, used only to delimit a recorded finding: for
+// every position i of the block [s,e) of the text t (the buffer contents that
+// were sorted), not covered by an earlier match, take the nearest smaller and
+// the nearest larger suffix among the positions < i, prefer the longer match
+// (clipped at the block end) and the later position on equal length, and
+// accept it if it has at least minMatch bytes and an offset below window. It
+// returns the number of bytes that method emits as literals.
+func TwoNeighbourLiterals(t []byte, s, e, minMatch, window int) int {
+	sa := NaiveSA(t)
+	rank := make([]int, len(t))
+	for r, p := range sa {
+		rank[p] = r
+	}
+	lits := 0
+	for i := s; i < e; {
+		ri := rank[i]
+		pred, succ := -1, -1
+		for j := 0; j < i; j++ {
+			rj := rank[j]
+			if rj < ri && (pred < 0 || rj > rank[pred]) {
+				pred = j
+			}
+			if rj > ri && (succ < 0 || rj < rank[succ]) {
+				succ = j
+			}
+		}
+		f, m := 0, 0
+		if pred >= 0 {
+			f, m = pred, LCP(t[pred:e], t[i:e])
+		}
+		if succ >= 0 {
+			if m2 := LCP(t[succ:e], t[i:e]); m2 > m || (m2 == m && succ > f) {
+				f, m = succ, m2
+			}
+		}
+		o := i - f
+		if m < minMatch || !(0 < o && o < window) {
+			lits++
+			i++
+			continue
+		}
+		i += m
+	}
+	return lits
+}
